@@ -101,6 +101,8 @@ class Network:
         self.link = FakeLink(ch, sched, trace, legacy=legacy, max_gen_delay=0 if calm else 300,
                              max_deliver_delay=0 if calm else 300, bell_choices=bell_choices,
                              distinct_fields=distinct_fields)
+        # injected fault kind (a fifth of the stormy runs): the first pair of a create request may be answered from inside put()
+        self.link.eager = (not calm) and ch.flag(1, 5, "eager-link")
         self.qlink = QuantumLink(self.uni, self.link)
         self.link.quantum = self.qlink
         self.nodes: List[ControllerNode] = []
